@@ -3,6 +3,8 @@
 
 use crate::api::*;
 use crate::common::*;
+use fst::{Map, Streamer};
+use serde_json::json;
 use crate::gen::*;
 use crate::ops::*;
 use crate::taut::*;
@@ -139,7 +141,78 @@ fn roundtrip_through_sinks(s: &mut Sess, items: &[Kv], r: &mut StdRng) {
     }
 }
 
+/// The key at position `i` of the big map (Trace_Api!BigKey computes the same).
+pub fn big_key(i: usize) -> [u8; 11] {
+    let a = (i * 1103) % 65521;
+    let b = (i * 977 + 12345) % 65519;
+    let c = (i * 733 + 7) % 65497;
+    [(i / 65536 % 256) as u8, (i / 256 % 256) as u8, (i % 256) as u8, (a / 256) as u8, (a % 256) as u8, (b / 256) as u8, (b % 256) as u8,
+     (c / 256) as u8, (c % 256) as u8, ((a + 3 * b) % 251) as u8, ((b + 5 * c) % 241) as u8]
+}
+pub const BIG_N: usize = 1_300_000;
+
+pub fn big_map() -> Vec<u8> {
+    let mut b = fst::MapBuilder::memory();
+    for i in 0..BIG_N {
+        b.insert(&big_key(i), (i * 7 + 1) as u64).unwrap();
+    }
+    b.into_inner().unwrap()
+}
+
+/// C01 at scale: length, number of streamed entries and a sample of positions of the big map.
+pub fn big_roundtrip(s: &mut Sess) {
+    let r = guard(|| {
+        let bytes = big_map();
+        let m = Map::new(bytes).unwrap();
+        let mut evs = vec![];
+        let mut st = m.stream();
+        let mut i = 0usize;
+        while let Some((k, v)) = st.next() {
+            if i % 997 == 0 || i < 40 || i + 40 >= BIG_N {
+                evs.push(json!({"ev": "Big", "what": "item", "n": BIG_N, "i": i, "k": jb(k), "v": ju(v)}));
+            }
+            i += 1;
+        }
+        evs.insert(0, json!({"ev": "Big", "what": "len", "n": BIG_N, "len": m.len(), "count": i, "empty": m.is_empty(), "size": m.as_fst().size()}));
+        evs
+    });
+    match r {
+        Ok(evs) => evs.into_iter().for_each(|e| s.log.ev(e)),
+        Err(p) => s.panic_ev("Big", &p),
+    }
+}
+
+/// C02 / C16 at scale: lookups, misses and inverse lookups on a sample of the big map.
+pub fn big_lookups(s: &mut Sess, inverse: bool) {
+    let r = guard(|| {
+        let bytes = big_map();
+        let m = Map::new(bytes).unwrap();
+        let mut evs = vec![];
+        let mut i = 0usize;
+        while i < BIG_N {
+            let k = big_key(i);
+            if inverse {
+                let v = (i * 7 + 1) as u64;
+                evs.push(json!({"ev": "Big", "what": "getkey", "n": BIG_N, "i": i, "v": ju(v), "res": m.as_fst().get_key(v).map(|k: Vec<u8>| vec![jb(&k)]).unwrap_or_default()}));
+                evs.push(json!({"ev": "Big", "what": "nokey", "n": BIG_N, "i": i, "v": ju(v + 1), "res": m.as_fst().get_key(v + 1).map(|k: Vec<u8>| vec![jb(&k)]).unwrap_or_default()}));
+            } else {
+                evs.push(json!({"ev": "Big", "what": "get", "n": BIG_N, "i": i, "k": jb(&k), "res": m.get(&k).map(|v| vec![ju(v)]).unwrap_or_default(), "contains": m.contains_key(&k)}));
+                let mut x = k.to_vec();
+                x.push(0);
+                evs.push(json!({"ev": "Big", "what": "miss", "n": BIG_N, "i": i, "k": jb(&x), "res": m.get(&x).map(|v| vec![ju(v)]).unwrap_or_default(), "contains": m.contains_key(&x)}));
+            }
+            i += if i < 50 || i + 50 >= BIG_N { 1 } else { 1237 };
+        }
+        evs
+    });
+    match r {
+        Ok(evs) => evs.into_iter().for_each(|e| s.log.ev(e)),
+        Err(p) => s.panic_ev("Big", &p),
+    }
+}
+
 pub fn c01(s: &mut Sess, seed: u64, tier: &str) {
+    big_roundtrip(s);
     let mut r = rng(seed, 1);
     exhaustive_two_level(s, tier);
     let ins = inputs(&mut r, tier, true);
@@ -225,6 +298,7 @@ fn lookups_two_level(s: &mut Sess, tier: &str) {
 
 pub fn c02(s: &mut Sess, seed: u64, tier: &str) {
     let mut r = rng(seed, 2);
+    big_lookups(s, false);
     lookups_two_level(s, tier);
     let ins = inputs(&mut r, tier, true);
     let mut nin = 0usize;
@@ -242,6 +316,11 @@ pub fn c02(s: &mut Sess, seed: u64, tier: &str) {
             Some(f) => f,
             None => continue,
         };
+        // the empty key, whatever the content
+        s.get(f, b"", "map");
+        s.get(f, b"", "raw");
+        s.contains(f, b"", "raw");
+        s.contains(f, b"", "set");
         let maxp = if thorough(tier) { 4000 } else { 1200 };
         let ps = probes(&items, &mut r, maxp);
         for p in &ps {
@@ -564,6 +643,34 @@ fn subset(r: &mut StdRng, uni: &[Kv], p: u32, idx: usize, vmode: u32) -> Vec<Kv>
 
 pub fn c05(s: &mut Sess, seed: u64, tier: &str) {
     let mut r = rng(seed, 5);
+    // "any number of input streams": a few operations over hundreds of them
+    let many: &[usize] = if thorough(tier) { &[257, 258, 300, 513] } else { &[257, 258] };
+    for (round, &k) in many.iter().enumerate() {
+        s.reset();
+        let mut ins = vec![];
+        for j in 0..k {
+            // every stream holds the common key, most one key of their own, some a shared one
+            let mut items: Vec<Kv> = vec![(b"common".to_vec(), j as u64)];
+            if j % 5 != 0 {
+                items.push((format!("own{:04}", j).into_bytes(), 1));
+            }
+            if j % 2 == 0 {
+                items.push((b"pair".to_vec(), (j / 2) as u64));
+            }
+            if j >= 256 {
+                items.push((format!("late{:03}", j % 7).into_bytes(), 3));
+            }
+            items.sort();
+            ins.push(OpInput { items, kind: if j % 50 == 7 { InKind::User } else { InKind::Whole } });
+        }
+        for op in &["union", "intersection", "difference", "symmetric_difference"] {
+            match (round + op.len()) % 3 {
+                0 => s.op(op, &ins, "raw", usize::MAX),
+                1 => s.op(op, &ins, "map", usize::MAX),
+                _ => s.set_op(op, &ins, usize::MAX),
+            }
+        }
+    }
     let rounds = if thorough(tier) { 3000 } else { 600 };
     let kinds = [InKind::Whole, InKind::Range, InKind::Search, InKind::User];
     for round in 0..rounds {
@@ -655,6 +762,7 @@ pub fn c06(s: &mut Sess, seed: u64, tier: &str) {
 
 pub fn c16(s: &mut Sess, seed: u64, tier: &str) {
     let mut r = rng(seed, 16);
+    big_lookups(s, true);
     let ins = inputs(&mut r, tier, true);
     let mut nin = 0usize;
     for (_name, keys) in ins {
@@ -667,7 +775,25 @@ pub fn c16(s: &mut Sess, seed: u64, tier: &str) {
             s.reset();
             nin += 1;
             let geo = if big { None } else { *pick(&mut r, GEOMETRIES) };
-            let built = if !big && nin % 6 == 4 { s.build_through_sink(&items, [0usize, 3, 9][(nin / 6) % 3], seed + nin as u64) } else { s.build(Front::MapInsert, &items, geo) };
+            // (every sixth input with rejected calls in between: duplicates with a smaller and with a
+            // larger value, a smaller key - none of them may leave a trace in the outputs)
+            let with_rejects: Vec<Kv> = if !big && nin % 6 == 1 {
+                let mut v = vec![];
+                for (i, it) in items.iter().enumerate() {
+                    v.push(it.clone());
+                    if i % 2 == 0 {
+                        v.push((it.0.clone(), it.1 / 2));
+                        v.push((it.0.clone(), it.1.wrapping_add(1)));
+                    }
+                    if i % 5 == 3 {
+                        v.push((items[i - 1].0.clone(), 0));
+                    }
+                }
+                v
+            } else {
+                items.clone()
+            };
+            let built = if !big && nin % 6 == 4 { s.build_through_sink(&items, [0usize, 3, 9][(nin / 6) % 3], seed + nin as u64) } else { s.build(Front::MapInsert, &with_rejects, geo) };
             let f = match built {
                 Some(f) => f,
                 None => continue,
